@@ -21,7 +21,7 @@ var kf *known.File
 func TestMain(m *testing.M) {
 	kf, _ = known.Load(ev.KnownFile())
 	rec.Rule("versions of the nine systems from the DESIGN §6 grammars (RubyGems release-only for the round trip) plus neighbour-mutated pairs; oracle = round trip Parse(Canon(v)) compares equal to v and re-canonicalises to the identical string (both showBuild values), equal canonical strings imply compare-equal, pypi.CanonVersion agrees with Parse+Canon and is the identity on unparsable text. Non-trivial: Canon(v) differs from the input text (something was normalised). Distinct = distinct (check, system, input text).")
-	rec.Assume("wildcard patterns accepted by Parse are constraint patterns, not versions: outside the domain")
+	rec.Assume("wildcard patterns accepted by Parse are round-tripped in the roundtrip-wildcards checks (four systems); the other checks leave them out")
 	rec.Assume("RubyGems versions with a prerelease segment are outside the round-trip domain (stated in the property)")
 	ev.Main(m, rec)
 }
@@ -43,11 +43,15 @@ func hasGemPre(s string) bool {
 
 // roundTrip returns the first violated clause or "".
 func roundTrip(sys semver.System, s string) (obs, exp string, inDomain bool, normalised bool) {
+	return roundTripW(sys, s, false)
+}
+
+func roundTripW(sys semver.System, s string, wildcards bool) (obs, exp string, inDomain bool, normalised bool) {
 	if sys == semver.Maven && !gen.InMavenDomain(s) {
 		return "", "", false, false
 	}
 	v, err := sys.Parse(s)
-	if err != nil || v.IsWildcard() {
+	if err != nil || v.IsWildcard() && !wildcards {
 		return "", "", false, false
 	}
 	for _, showBuild := range []bool{true, false} {
@@ -215,7 +219,7 @@ func TestCorpus(t *testing.T) {
 		if err := json.Unmarshal(fd.Witness, &c); err != nil {
 			t.Fatalf("bad witness %s: %v", fd.ID, err)
 		}
-		if obs, _, in, _ := roundTrip(sysByName(c.System), c.V); in && obs != "" {
+		if obs, _, in, _ := roundTripW(sysByName(c.System), c.V, true); in && obs != "" {
 			rec.Known(fd.ID, fd.Text+" ["+obs+"]")
 		}
 	}
@@ -264,6 +268,10 @@ func TestReplay(t *testing.T) {
 	case check == "pypi.CanonVersion":
 		if obs := canonVersionViolation(c.V); obs != "" {
 			t.Fatal("replay fails: " + obs)
+		}
+	case strings.HasPrefix(check, "roundtrip-wildcards/"):
+		if obs, exp, _, _ := roundTripW(sys, c.V, true); obs != "" {
+			t.Fatalf("replay fails: %s (expected %s)", obs, exp)
 		}
 	default:
 		if obs, exp, _, _ := roundTrip(sys, c.V); obs != "" {
